@@ -11,6 +11,7 @@ import (
 	"verif/harness/h"
 
 	"github.com/golang/protobuf/proto"
+	"github.com/itchio/savior"
 	"github.com/itchio/wharf/bsdiff"
 	"github.com/itchio/wharf/pwr"
 	"github.com/itchio/wharf/wire"
@@ -52,6 +53,9 @@ type Spec struct {
 	// Hold: popped checkpoints are kept as objects and serialized only after the whole stream has been read
 	// (later saves of the same reader must not change a checkpoint handed out before)
 	Hold bool `json:"hold,omitempty"`
+	// Pre > 0: the stream does not start at byte 0 of its source: Pre other bytes come first, and the reader
+	// is built on the source positioned behind them (a stream stored behind something else in one file)
+	Pre int `json:"pre,omitempty"`
 }
 
 // writeStream frames msgs under comp; the returned closer closes the compressed context
@@ -221,9 +225,18 @@ func check(s Spec) h.Result {
 			}
 		}
 	}
+	whole := stream
+	if s.Pre > 0 {
+		whole = append(h.Content{{Src: 7, Off: 5, Len: s.Pre}}.Bytes(), stream...)
+		cl = append(cl, "source:stream-starts-behind-other-bytes")
+	}
 	open := func() (*wire.ReadContext, error) {
-		src := h.Source(stream)
-		if _, err := src.Resume(nil); err != nil {
+		src := h.Source(whole)
+		var at *savior.SourceCheckpoint
+		if s.Pre > 0 {
+			at = &savior.SourceCheckpoint{Offset: int64(s.Pre)}
+		}
+		if _, err := src.Resume(at); err != nil {
 			return nil, err
 		}
 		rr := wire.NewReadContext(src)
@@ -469,6 +482,9 @@ var prop = h.Prop[Spec]{
 		}
 		s.Twin = rapid.IntRange(0, 4).Draw(t, "twin-streams") == 0
 		s.Hold = rapid.IntRange(0, 2).Draw(t, "hold-checkpoints") == 0
+		if rapid.IntRange(0, 3).Draw(t, "behind-other-bytes") == 0 {
+			s.Pre = rapid.OneOf(rapid.IntRange(1, 64), rapid.IntRange(1, 100000)).Draw(t, "pre")
+		}
 		return s
 	},
 	Check: check,
